@@ -13,9 +13,16 @@ EPS = 1e-6
 
 
 def box_poly(d, scale):
+    """scaled footprint of the box in the ground plane: its four base corners turned by the box's full orientation (yaw, then optional pitch and roll)
+    and projected; the box's vertical extent stays centre +- height / 2"""
     w, l, h = d["size"]
-    c, s = math.cos(d["yaw"]), math.sin(d["yaw"])
-    return [(d["x"] + c * px * scale - s * py * scale, d["y"] + s * px * scale + c * py * scale)
+    cy, sy = math.cos(d["yaw"]), math.sin(d["yaw"])
+    cp, sp = math.cos(d.get("pitch", 0.0)), math.sin(d.get("pitch", 0.0))
+    cr, sr = math.cos(d.get("roll", 0.0)), math.sin(d.get("roll", 0.0))
+    # R = Rz(yaw) Ry(pitch) Rx(roll); a base corner (px, py, 0) goes to the first two rows of R applied to it
+    r00, r01 = cy * cp, cy * sp * sr - sy * cr
+    r10, r11 = sy * cp, sy * sp * sr + cy * cr
+    return [(d["x"] + (r00 * px + r01 * py) * scale, d["y"] + (r10 * px + r11 * py) * scale)
             for px, py in ((l / 2, w / 2), (-l / 2, w / 2), (-l / 2, -w / 2), (l / 2, -w / 2))]
 
 
@@ -46,7 +53,12 @@ def in_prism(p, poly, zlo, zhi):
 
 
 def obj(d):
-    return build.obj3d(dict(d, label="car"))
+    o = build.obj3d(dict(d, label="car"))
+    if d.get("pitch") or d.get("roll"):
+        from pyquaternion import Quaternion
+        o.state.orientation = (Quaternion(axis=[0, 0, 1], radians=d["yaw"]) * Quaternion(axis=[0, 1, 0], radians=d.get("pitch", 0.0)) *
+                               Quaternion(axis=[1, 0, 0], radians=d.get("roll", 0.0)))
+    return o
 
 
 def check_crop(case):
@@ -219,6 +231,13 @@ def prism_corners(a):
 
 
 def gen_box(rng):
+    d = _gen_box(rng)
+    if rng.random() < 0.3:      # a box on a slope
+        d.update(pitch=round(rng.uniform(-0.25, 0.25), 3), roll=round(rng.uniform(-0.15, 0.15), 3))
+    return d
+
+
+def _gen_box(rng):
     return dict(x=round(rng.uniform(-20, 20), 2), y=round(rng.uniform(-20, 20), 2), z=round(rng.uniform(-1, 1), 2), yaw=round(rng.uniform(-3.1, 3.1), 2),
                 size=(rng.choice([0.4, 1.8, 2.5]), rng.choice([0.6, 4.5, 10.0]), rng.choice([0.5, 1.6, 3.0])), uuid=str(rng.randint(0, 999)))
 
